@@ -37,9 +37,12 @@ V2_MAGIC = bytes([0x00, 0x02, 0xaa, 0x55])
 V3_MAGIC = bytes([0x00, 0x03, 0xaa, 0x55])
 
 
-def v2(threads=(), pad=0, records=(), is_64bit=1, tick=24000000, nthreads=None):
+def v2(threads=(), pad=0, records=(), is_64bit=1, tick=24000000, nthreads=None, tod=b'\0' * 12, reserved=b'\0' * 0x100):
+    """tod: the 12 bytes between the thread count and the 64-bit word (time of day in real dumps); reserved: the 0x100 bytes before
+    the thread map. The parser reads past all of them."""
     n = len(threads) if nthreads is None else nthreads
-    b = V2_MAGIC + le(n, 4) + b'\0' * 8 + b'\0' * 4 + le(is_64bit, 4) + le(tick, 8) + b'\0' * 0x100
+    assert len(tod) == 12 and len(reserved) == 0x100
+    b = V2_MAGIC + le(n, 4) + tod + le(is_64bit, 4) + le(tick, 8) + reserved
     b += threadmap_entries(threads)
     b += b'\0' * pad
     b += b''.join(records)
@@ -87,7 +90,7 @@ def v3_threadmap(threads):
     return TAG_THREADMAP + le(len(b), 8) + b
 
 
-def v3_event_chunks(chunks, with8=True, gap=b'', more_word=None):
+def v3_event_chunks(chunks, with8=True, gap=b'', more_word=None, unknown8=b'\0' * 8):
     """chunks: list of lists of 64-byte records. A following chunk is announced by MORE_EVENTS;
     `gap` bytes may sit between the MORE_EVENTS tag and the next events tag."""
     out = b''
@@ -95,7 +98,7 @@ def v3_event_chunks(chunks, with8=True, gap=b'', more_word=None):
         body = b''.join(recs)
         if i > 0:
             out += TAG_MORE_EVENTS + (le(0, 8) if more_word is None else more_word) + gap
-        out += TAG_EVENTS + le(len(body) + (8 if with8 else 0), 8) + b'\0' * 8 + body
+        out += TAG_EVENTS + le(len(body) + (8 if with8 else 0), 8) + unknown8 + body       # unknown8: the 8 bytes nobody interprets
     return out
 
 
@@ -105,11 +108,11 @@ def v3_block(tag, payload, pad=True):
 
 
 def v3(threads=(), chunks=((),), blocks=(), filler1=b'xx', filler2=b'', with8=True, cpu_info=None, gap=b'',
-       header_kw=None, more_word=None):
+       header_kw=None, more_word=None, unknown8=b'\0' * 8):
     b = V3_MAGIC + v3_header(cpu_info, **(header_kw or {})) + b'\0' * 4
     b += filler1 + STACKSHOT_END + filler2
     b += v3_threadmap(threads)
-    b += v3_event_chunks(chunks, with8, gap, more_word)
+    b += v3_event_chunks(chunks, with8, gap, more_word, unknown8)
     for blk in blocks:
         b += blk
     return b
